@@ -215,6 +215,8 @@ def unit_solve(has_prompt=True):
                 out.append(('on-exception/inputs-held-before-are-kept', z3.ForAll([L], z3.Implies(entry.C.mem[L], s1.C.mem[L]))))
             for ix, k in enumerate(it.ghost.get('answers_stored', [])):
                 out.append(('on-exception/answers-given-are-kept', s1.C.mem[k]))
+            # C20: whatever the user answered before the interruption is in the input store the write-back serialises
+            out.append(('on-exception/every-answer-given-is-stored', z3.ForAll([L], z3.Implies(s1.A.mem[L], s1.C.mem[L]))))
             return out
         s1 = spec.st(it, me)
         for ix, k in enumerate(it.ghost.get('answers_stored', [])):
@@ -282,13 +284,26 @@ def finish_with_refutation(prop, obs, select, seed, tier):
             if not searched:
                 searched = True
                 found = toyforms.search(prop, seed, 300 if tier == 'quick' else 3000) if prop in toyforms.CHECKS else None
-            if found:
+                if not found:
+                    from .. import session
+                    if prop in session.CHECKS:
+                        found = session.search(prop, seed, 40 if tier == 'quick' else 400)
+                        if found:
+                            found['kind'] = 'session'
+            if not found and o.status == oblig.REFUTED:
+                # the back end produced a counter-model of the verification condition (or the obligation is structurally false
+                # on this tree) but no toy program reproduces it: still a violation, reported without a failing input
+                o.replay = {'reproduced': False, 'note': 'counter-model of the verification condition; concretisation search found no failing run of the real solver'}
+            elif found:
                 o.status = oblig.REFUTED
-                o.replay = {'reproduced': True, 'native_counterexample': found, 'note': 'toy form program run on the real Solver (concretisation search)'}
-                o.replay_spec = {'kind': 'toy', 'prop': prop, 'scenario': {k: found[k] for k in ('program', 'requested', 'provided', 'answers', 'refuse_after')}}
+                if found.get('kind') == 'session':
+                    o.replay = {'reproduced': True, 'native_counterexample': found, 'note': 'scripted interactive session of the real habutax.solve(args) over toy forms (pyvc/session.py)'}
+                    o.replay_spec = {'kind': 'session', 'prop': prop, 'scenario': {k: found[k] for k in ('program', 'requested', 'provided', 'answers', 'stop_at', 'stop_kind')}}
+                else:
+                    o.replay = {'reproduced': True, 'native_counterexample': found, 'note': 'toy form program run on the real Solver (concretisation search)'}
+                    o.replay_spec = {'kind': 'toy', 'prop': prop, 'scenario': {k: found[k] for k in ('program', 'requested', 'provided', 'answers', 'refuse_after')}}
                 o.witness = {'violated': found['violated']}
             else:
-                o.status = oblig.UNDECIDED
                 o.solver_output = (o.solver_output or '') + ' | concretisation search found no failing run'
         out.append(o)
     return out
